@@ -27,7 +27,7 @@ HEADINGS = [
     "> # **Quoted bold heading**", "- # **Heading in item**\n\n  text", "# **bold**text", "###### ***x***", "# ~~**struck bold**~~",
     # a fully bold heading inside every container that can hold one
     "x[^1]\n\n[^1]: Note.\n\n    ## **In footnote**", "> [!NOTE]\n> ## **In alert**", "1. item\n\n   ### **In ordered item**", "> - ## **In item in quote**",
-    "# **__bold in bold__**", "## ***__bold in bold italic__***", "### __**x**__", "- > # **In quote in item**", "x[^2]\n\n[^2]: Note.\n\n    - ## **In item in footnote**", "> > ## **Doubly quoted**", "- a\n  - b\n\n    #### **Nested item**",
+    "# ***Note*** on usage", "## ***a*** and ***b***", "### *__x__* tail", "# ***lead*** **rest**", "# **__bold in bold__**", "## ***__bold in bold italic__***", "### __**x**__", "- > # **In quote in item**", "x[^2]\n\n[^2]: Note.\n\n    - ## **In item in footnote**", "> > ## **Doubly quoted**", "- a\n  - b\n\n    #### **Nested item**",
 ]
 LIST_DOCS = [   # authored-loose / authored-tight lists whose items hold several blocks, with and without blank lines inside the item
     ("loose_nested", "- a\n  - x\n\n- b\n  - y\n"), ("loose_quote_in_item", "1. a\n   > q\n\n2. b\n"), ("loose_code_in_item", "- a\n  ```\n  c\n  ```\n\n- b\n"),
